@@ -4,7 +4,7 @@
 From Coq Require Import ZArith NArith List Bool String.
 From Coq Require Import Floats.SpecFloat.
 From Coq Require Import Strings.Byte.
-From YV Require Import Show Wire Num NumText NumLex.
+From YV Require Import Show Wire Num NumText NumLex NumDigits.
 Import ListNotations.
 Open Scope string_scope.
 
@@ -62,3 +62,15 @@ Definition run_ref1 (b : N) : string :=
   | _ => "T"
   end.
 Definition run_ref_w (w : string) : string := show_sep "," run_ref1 (List.concat (parse_nss w)).
+
+(* model-internal: Num.is_integral (SpecFloat ftrunc / feqb) against the arithmetic predicate
+   NumDigits.integral_finb used by the theorems integral_prints_without_fraction / print_without_fraction_integral;
+   output T when they agree, plus I/N = integral or not *)
+Definition run_intg1 (b : N) : string :=
+  match f64_of_bits (Z.of_N b) with
+  | S754_finite s m e =>
+    show_bool (Bool.eqb (is_integral (S754_finite s m e)) (integral_finb m e)) ++
+    (if integral_finb m e then "I" else "N")
+  | _ => "T-"
+  end.
+Definition run_intg_w (w : string) : string := show_sep "," run_intg1 (List.concat (parse_nss w)).
